@@ -13,7 +13,7 @@
    currently refused; [quiet es] = the transport never starts refusing.  With l = [] it IS Model/C14.v
    (C14_accepting_transport_is_base_model).  The run-level theorems below hold for ARBITRARY refusals (they were
    refuted for the code before /repo commits 11456f9 and 8d04b7c: findings C14-R1 / C14-R2 in notes/C14.md). *)
-From Verif Require Import Lib.Py Lib.Tactics Gen.c14_message_id Model.C14 Model.C14refuse Proofs.C14 Proofs.C14step Proofs.C14req Proofs.C14mid Proofs.C14refuse Proofs.C14drop Proofs.C14live Proofs.C14gen.
+From Verif Require Import Lib.Py Lib.Tactics Gen.c14_message_id Model.C14 Model.C14refuse Proofs.C14 Proofs.C14step Proofs.C14req Proofs.C14mid Proofs.C14refuse Proofs.C14drop Proofs.C14live Proofs.C14gen Proofs.C14R6 Proofs.C14R6b.
 Import ListNotations.
 Open Scope Z_scope.
 
@@ -239,6 +239,76 @@ Theorem C14_general_eventually : forall es s l r k m, Inv s -> refuses l r = fal
 Proof. exact general_eventually_leaves. Qed.
 Print Assumptions C14_general_eventually.
 
+(* ---- round 6: history-level statements (run level; r is never refused, every other remote may be refused and accepted
+   again at will).  [first_con_tx r m o]: the confirmable message m for r is put on the wire for the first time in o. *)
+(* the first transmission of a confirmable message opens the exchange for exactly that message *)
+Theorem C14_first_tx_opens_exchange : forall l r, refuses l r = false -> forall s e m, Inv s ->
+  first_con_tx r m (snd (step_ev l s e)) -> exists x, exs r (fst (step_ev l s e)) = [x] /\ x_msg x = m.
+Proof. exact general_first_tx_opens_exchange. Qed.
+Print Assumptions C14_first_tx_opens_exchange.
+(* at most one confirmable message per remote in flight, as a statement about histories: from ANY reachable state, after a
+   step that puts CON m1 for r on the wire, through any run in which no step acknowledges/resets that exchange or fails r
+   ([quiet_for]), m1 stays the one in flight, no other CON for r is put on the wire, and a step that then does put another
+   one on the wire is an ACK/RST carrying the message ID of m1's exchange *)
+Theorem C14_one_confirmable_in_flight_history : forall mid0 token0 rnd es0 es r e1 m1 e2 m2,
+  let s := fst (fst (rrun (init mid0 token0 rnd, []) es0)) in let l := snd (fst (rrun (init mid0 token0 rnd, []) es0)) in
+  refuses l r = false -> never_refuses r es = true ->
+  first_con_tx r m1 (snd (step_ev l s e1)) ->
+  let s1 := fst (step_ev l s e1) in
+  quiet_for r (s1, l) es = true ->
+  let s2 := fst (fst (rrun (s1, l) es)) in let l2 := snd (fst (rrun (s1, l) es)) in
+  (forall m, ~ first_con_tx r m (concat (snd (rrun (s1, l) es)))) /\
+  (exists x, exs r s2 = [x] /\ x_msg x = m1) /\
+  (first_con_tx r m2 (snd (step_ev l2 s2 e2)) -> acks s2 e2 r = true).
+Proof. exact reachable_one_confirmable_in_flight_history. Qed.
+Print Assumptions C14_one_confirmable_in_flight_history.
+(* ... and, with no hypothesis on what happens in between: two first transmissions of confirmable messages to r are always
+   separated by a step that acknowledges/resets the open exchange or fails r (the second one's own step included) *)
+Theorem C14_two_first_transmissions_are_separated : forall mid0 token0 rnd es0 es r e1 m1 e2 m2,
+  let s := fst (fst (rrun (init mid0 token0 rnd, []) es0)) in let l := snd (fst (rrun (init mid0 token0 rnd, []) es0)) in
+  refuses l r = false -> never_refuses r es = true ->
+  first_con_tx r m1 (snd (step_ev l s e1)) ->
+  let s1 := fst (step_ev l s e1) in
+  let s2 := fst (fst (rrun (s1, l) es)) in let l2 := snd (fst (rrun (s1, l) es)) in
+  first_con_tx r m2 (snd (step_ev l2 s2 e2)) ->
+  quiet_for r (s1, l) (es ++ [Ev e2]) = false.
+Proof. exact two_first_transmissions_are_separated. Qed.
+Print Assumptions C14_two_first_transmissions_are_separated.
+(* fairness over infinite schedules of the general model (events and refusals of other remotes), from any reachable state:
+   if from every point on a later step acknowledges/resets/fails r's exchange or fires its timer, or nothing is outstanding
+   at r, every held-back message has eventually left the queue *)
+Theorem C14_general_fair_schedule_eventually : forall mid0 token0 rnd es0 sch r k m,
+  let s := fst (fst (rrun (init mid0 token0 rnd, []) es0)) in let l := snd (fst (rrun (init mid0 token0 rnd, []) es0)) in
+  refuses l r = false -> never_refused_in r sch -> nth_error (backlog_of r s) k = Some m -> rfair sch (s, l) r ->
+  exists n, In m (left r (rtrace_to sch (s, l) n)).
+Proof. exact reachable_general_fair_eventually_leaves. Qed.
+Print Assumptions C14_general_fair_schedule_eventually.
+(* none forgotten, from submission on, unconditional: from ANY reachable state, a confirmable message handed to
+   send_message for r ([Submitted m]) has left r's queue — on the wire, or discarded with the requests to r failed — once the
+   schedule that follows contains [budget] progress steps (ACK/RST, failure, timer of the exchange ahead); the budget is
+   the retransmission budget of the exchange ahead plus that of everything queued at submission *)
+Theorem C14_submitted_eventually_leaves : forall mid0 token0 rnd es0 es e r m,
+  let s := fst (fst (rrun (init mid0 token0 rnd, []) es0)) in let l := snd (fst (rrun (init mid0 token0 rnd, []) es0)) in
+  refuses l r = false -> never_refuses r es = true ->
+  In (Submitted m) (snd (step_ev l s e)) -> con_to r m = true ->
+  let s1 := fst (step_ev l s e) in
+  (budget r (length (backlog_of r s1)) s1 <= gcount (s1, l) es r)%nat ->
+  In m (left r (snd (step_ev l s e) ++ concat (snd (rrun (s1, l) es)))).
+Proof. exact reachable_submitted_eventually_leaves. Qed.
+Print Assumptions C14_submitted_eventually_leaves.
+
+(* the remote itself refused (the residue of round 5), one event kind: when the exchange of a refused remote is ended by an
+   empty ACK / RST, the release of the head is refused and the whole queue is discarded in that very step — nothing is
+   transmitted, nothing raises (before /repo fix 8d04b7c this was the KeyError of finding C14-R2).  Partial: the same
+   dichotomy "queue kept or entirely discarded" for the other event kinds about a refused remote is not proved. *)
+Theorem C14_refused_release_discards_queue_partial : forall l r, refuses l r = true -> forall s mt mid q x, Inv s ->
+  (mt = 2 \/ mt = 3) -> xget r mid (active_exchanges s) = Some x -> aget r (backlogs s) = Some q ->
+  let s' := fst (step_ev l s (RecvEmpty r mt mid)) in let o := snd (step_ev l s (RecvEmpty r mt mid)) in
+  Inv s' /\ aget r (backlogs s') = None /\ exs r s' = [] /\ (forall m, In m q -> In m (left r o)) /\
+  (forall m b, ~ In (Tx m b) o) /\ subm r o = [].
+Proof. exact refused_release_step. Qed.
+Print Assumptions C14_refused_release_discards_queue_partial.
+
 (* the special case of silent peers, with the explicit bound [measure s] on the number of firings *)
 Theorem C14_quiesces_when_peers_silent : forall s, Inv s ->
   let s' := fst (run s (repeat Fire (measure s))) in let tr := concat (snd (run s (repeat Fire (measure s)))) in
@@ -281,3 +351,12 @@ Example C14_scenario :
         Fired 1 2; Tx {| m_sub := Req 4; m_remote := 1; m_mtype := 0; m_code := 1; m_mid := 2; m_tok := 10; m_maxre := 4 |} true].
 Proof. vm_compute. split; reflexivity. Qed.
 
+Example C14_history_nontrivial :
+  let m1 := {| m_sub := Req 1; m_remote := 0; m_mtype := 0; m_code := 1; m_mid := 0; m_tok := 1; m_maxre := 1 |} in
+  let es := [Ev (Request 2 0 0 1); Refuse 1 true; Ev (Request 3 1 0 0); Ev Fire; Ev (RecvEmpty 0 2 5)] in
+  let s1 := fst (step_ev [] (init 0 0 []) (Request 1 0 0 1)) in
+  first_con_tx 0 m1 (snd (step_ev [] (init 0 0 []) (Request 1 0 0 1))) /\ quiet_for 0 (s1, []) es = true /\
+  never_refuses 0 es = true /\ map m_sub (backlog_of 0 (fst (fst (rrun (s1, []) es)))) = [Req 2] /\
+  acks (fst (fst (rrun (s1, []) es))) (RecvEmpty 0 2 0) 0 = true /\
+  gcount (s1, []) (es ++ [Ev (RecvEmpty 0 2 0); Ev Fire; Ev Fire]) 0 = 4%nat.
+Proof. split; [split; [cbn; auto|reflexivity]|]. vm_compute. repeat split. Qed.
